@@ -261,11 +261,29 @@ func c10AllVecs() (res []c10Vec) {
 func c10Pick[T any](rng *rand.Rand, xs []T) T { return xs[rng.Intn(len(xs))] }
 
 func c10MixCase(rng *rand.Rand, s string) string {
-	switch rng.Intn(4) {
+	switch rng.Intn(6) {
 	case 0:
 		return s
 	case 1:
 		return strings.ToUpper(s)
+	case 2, 3:
+		// every occurrence of one letter (the ends of the alphabet more often
+		// than the rest), nothing else: what 0x20 randomisation can produce
+		letters := "azazmzybnAZ"
+		var present []byte
+		for i := 0; i < len(s); i++ {
+			if s[i] >= 'a' && s[i] <= 'z' {
+				present = append(present, s[i])
+			}
+		}
+		if len(present) == 0 {
+			return s
+		}
+		l := letters[rng.Intn(len(letters))]
+		if l < 'a' || !strings.ContainsRune(s, rune(l)) {
+			l = present[rng.Intn(len(present))]
+		}
+		return strings.ReplaceAll(s, string(l), strings.ToUpper(string(l)))
 	}
 	b := []byte(s)
 	for i := range b {
@@ -438,7 +456,7 @@ func c10NewGlobal(rng *rand.Rand, n int) *c10Global {
 	c10Shuffle(rng, g.Nets)
 
 	dom := func(stem, tld string) string {
-		d := fmt.Sprintf("%s-%d.%s", stem, rng.Intn(1000), tld)
+		d := fmt.Sprintf("%s%s-%d.%s", stem, c10Pick(rng, []string{"", "z", "az", "zone"}), rng.Intn(1000), tld)
 		g.doms = append(g.doms, d)
 		return d
 	}
